@@ -266,3 +266,87 @@ Proof.
   rewrite (of_to_dec 2 d 0) by (change (10 ^ Z.of_nat 2) with 100; lia).
   cbn [Z.mul Z.add]. rewrite Hv. reflexivity.
 Qed.
+
+(* ================= datetimes ================= *)
+(* ---------- proofs ---------- *)
+Lemma to_dec6 u : to_dec 6 u = [decdigit (u / 10 / 10 / 10 / 10 / 10 mod 10); decdigit (u / 10 / 10 / 10 / 10 mod 10); decdigit (u / 10 / 10 / 10 mod 10);
+                                decdigit (u / 10 / 10 mod 10); decdigit (u / 10 mod 10); decdigit (u mod 10)].
+Proof. reflexivity. Qed.
+
+Lemma time_roundtrip H M Sc : 0 <= H < 24 -> 0 <= M < 60 -> 0 <= Sc < 60 -> parse_time (time_iso H M Sc) = Some (H, M, Sc).
+Proof.
+  intros HH HM HS. unfold parse_time, time_iso. rewrite !to_dec2.
+  cbn [app length Nat.eqb nth firstn skipn]. rewrite !Z.eqb_refl. cbn [andb].
+  rewrite <- !to_dec2.
+  rewrite (of_to_dec 2 H 0) by (change (10 ^ Z.of_nat 2) with 100; lia).
+  rewrite (of_to_dec 2 M 0) by (change (10 ^ Z.of_nat 2) with 100; lia).
+  rewrite (of_to_dec 2 Sc 0) by (change (10 ^ Z.of_nat 2) with 100; lia).
+  cbn [Z.mul Z.add].
+  replace (H <? 24) with true by (symmetry; apply Z.ltb_lt; lia).
+  replace (M <? 60) with true by (symmetry; apply Z.ltb_lt; lia).
+  replace (Sc <? 60) with true by (symmetry; apply Z.ltb_lt; lia). reflexivity.
+Qed.
+
+Lemma off_roundtrip tz : valid_off tz = true -> parse_off (off_iso tz) = Some tz.
+Proof.
+  destruct tz as [o|]; [|reflexivity]. cbn [valid_off]. intros Hv.
+  apply andb_prop in Hv. destruct Hv as [Hv H60]. apply andb_prop in Hv. destruct Hv as [Hlo Hhi].
+  apply Z.ltb_lt in Hlo. apply Z.ltb_lt in Hhi. apply Z.eqb_eq in H60.
+  set (a := Z.abs o). assert (Ha : 0 <= a < 86400) by (subst a; lia).
+  assert (Hq : 0 <= a / 3600 < 24) by (split; [apply Z.div_pos; lia | apply Z.div_lt_upper_bound; lia]).
+  assert (Hr : 0 <= a mod 3600 / 60 < 60).
+  { pose proof (Z.mod_pos_bound a 3600 ltac:(lia)). split; [apply Z.div_pos; lia | apply Z.div_lt_upper_bound; lia]. }
+  assert (Hsum : a / 3600 * 3600 + a mod 3600 / 60 * 60 = a).
+  { assert (Ha60 : a mod 60 = 0).
+    { subst a. destruct (Z.abs_spec o) as [[_ ->]|[_ ->]]; [exact H60|].
+      apply Z.mod_opp_l_z; [lia | exact H60]. }
+    clear - Ha60 Ha. Z.div_mod_to_equations. lia. }
+  unfold off_iso, parse_off. fold a. rewrite !to_dec2.
+  cbn [app length Nat.eqb nth firstn skipn]. rewrite Z.eqb_refl.
+  assert (Hsg : (((if o <? 0 then dash else plus) =? plus) || ((if o <? 0 then dash else plus) =? dash)) = true) by (destruct (o <? 0); reflexivity).
+  rewrite Hsg. cbn [andb]. rewrite <- !to_dec2.
+  rewrite (of_to_dec 2 (a / 3600) 0) by (change (10 ^ Z.of_nat 2) with 100; lia).
+  rewrite (of_to_dec 2 (a mod 3600 / 60) 0) by (change (10 ^ Z.of_nat 2) with 100; lia).
+  cbn [Z.mul Z.add].
+  replace (a / 3600 <? 24) with true by (symmetry; apply Z.ltb_lt; lia).
+  replace (a mod 3600 / 60 <? 60) with true by (symmetry; apply Z.ltb_lt; lia). cbn [andb].
+  f_equal. f_equal. rewrite Hsum. subst a.
+  destruct (o <? 0) eqn:Eo; [apply Z.ltb_lt in Eo | apply Z.ltb_ge in Eo].
+  - change (dash =? dash) with true. cbv iota. lia.
+  - change (plus =? dash) with false. cbv iota. lia.
+Qed.
+
+Lemma date_iso_split y m d X :
+  firstn 10 (date_iso y m d ++ X) = date_iso y m d /\ nth 10 (date_iso y m d ++ tee :: X) 0 = tee /\
+  skipn 11 (date_iso y m d ++ tee :: X) = X.
+Proof. unfold date_iso. rewrite to_dec4, !to_dec2. repeat split. Qed.
+
+Lemma time_iso_split H M Sc X :
+  firstn 8 (time_iso H M Sc ++ X) = time_iso H M Sc /\ skipn 8 (time_iso H M Sc ++ X) = X.
+Proof. unfold time_iso. rewrite !to_dec2. split; reflexivity. Qed.
+
+Theorem datetime_roundtrip y m d H M Sc us tz :
+  valid_ymd y m d = true -> valid_time H M Sc us = true -> valid_off tz = true ->
+  datetime_parse (datetime_iso y m d H M Sc us tz) = Some (y, m, d, H, M, Sc, us, tz).
+Proof.
+  intros Hd Ht Ho. pose proof Ht as Ht'. unfold valid_time in Ht'.
+  repeat (apply andb_prop in Ht'; destruct Ht' as [Ht' ?]).
+  repeat match goal with H : (_ <=? _) = true |- _ => apply Z.leb_le in H | H : (_ <? _) = true |- _ => apply Z.ltb_lt in H end.
+  unfold datetime_parse, datetime_iso.
+  destruct (date_iso_split y m d (time_iso H M Sc ++ frac_iso us ++ off_iso tz)) as [_ [E2 E3]].
+  destruct (date_iso_split y m d (tee :: time_iso H M Sc ++ frac_iso us ++ off_iso tz)) as [E1 _].
+  rewrite E1, (date_roundtrip y m d Hd), E2, Z.eqb_refl, E3.
+  destruct (time_iso_split H M Sc (frac_iso us ++ off_iso tz)) as [F1 F2].
+  rewrite F1, (time_roundtrip H M Sc) by lia.
+  replace (skipn 19 (date_iso y m d ++ tee :: time_iso H M Sc ++ frac_iso us ++ off_iso tz)) with (frac_iso us ++ off_iso tz).
+
+  unfold frac_iso. destruct (us =? 0) eqn:Eu.
+  - apply Z.eqb_eq in Eu. subst us. cbn [app].
+    pose proof (off_roundtrip tz Ho) as R.
+    destruct tz as [o|]; [|reflexivity]. cbn [off_iso] in *.
+    assert (Hnd : ((if o <? 0 then dash else plus) =? dot) = false) by (destruct (o <? 0); reflexivity).
+    rewrite Hnd, R. reflexivity.
+  - cbn [app]. rewrite Z.eqb_refl. rewrite to_dec6. cbn [app length Nat.leb firstn skipn].
+    rewrite <- to_dec6. rewrite (of_to_dec 6 us 0) by (change (10 ^ Z.of_nat 6) with 1000000; lia).
+    rewrite (off_roundtrip tz Ho). cbn [Z.mul Z.add]. reflexivity.
+Qed.
